@@ -288,6 +288,15 @@ def choiceRegister (cfg : Cfg) (w : World) (f : Nat) : List Clause → World
     | .got w' _ => choiceRegister cfg w' f rest
     | .blocked w' => choiceRegister cfg w' f rest
 
+/-! ### ev/count, ev/full, ev/capacity -/
+
+/-- cfun_channel_count: `janet_q_count(&channel->items)` -/
+def chanCount (w : World) (c : Nat) : Nat := (w.chans c).items.length
+/-- cfun_channel_full: `janet_q_count(&channel->items) >= channel->limit` -/
+def chanFull (w : World) (c : Nat) : Bool := decide ((w.chans c).items.length ≥ (w.chans c).limit)
+/-- cfun_channel_capacity: `channel->limit` -/
+def chanCapacity (w : World) (c : Nat) : Nat := (w.chans c).limit
+
 /-! ### cfun_channel_close -/
 
 def fiberCanResume (fb : Fiber) : Bool :=
